@@ -1,7 +1,9 @@
 #!/usr/bin/env python3
 """mutate_typed.py — single, certainly ill-typed edits of well-typed Fun programs (property C15).
 
-usage: mutate_typed.py CORPUS_DIR OUT_DIR [--harness PATH] [--only CLASS] [--limit N]
+usage: mutate_typed.py CORPUS_DIR OUT_DIR [--harness PATH] [--only CLASS] [--limit N] [--doubles N]
+(--doubles N: additionally N random PAIRS of edits per program, class name `a+b`; they exercise the
+order in which the checker reports the first error)
 
 For every CORPUS_DIR/p*.sc (programs the real checker accepts) the harness is asked for the parsed
 tree (S0: declarations) and the checked tree (S1: definitions with type annotations).  Each mutant is
@@ -223,27 +225,56 @@ class Mutator:
         for d in self.codatas.values():
             for c in d[3:]: self.dtor_sig[S(c[1])] = c[2][1:]
         self.out = []                 # (class, program text)
+        self.edits = []               # registered single edits
 
     # -- helpers
     def emit(self, cls, prog, extra_decls=()):
         self.out.append((cls, p_prog(list(extra_decls) + prog)))
 
     def with_edit(self, cls, container, index, new, extra_decls=()):
-        """emit the program with container[index] replaced by new (restored afterwards)"""
-        old = container[index]
-        container[index] = new
-        try:
-            self.emit(cls, self.prog, extra_decls)
-        finally:
-            container[index] = old
+        """register the edit `container[index] := new`"""
+        self.edits.append((cls, container, index, new, tuple(extra_decls)))
 
     def with_list_edit(self, cls, container, newitems, extra_decls=()):
-        old = container[:]
-        container[:] = newitems
-        try:
-            self.emit(cls, self.prog, extra_decls)
-        finally:
+        """register the edit `container[:] := newitems`"""
+        self.edits.append((cls, container, None, newitems, tuple(extra_decls)))
+
+    @staticmethod
+    def apply(edit):
+        cls, container, index, new, extra = edit
+        if index is None:
+            old = container[:]
+            container[:] = new
+        else:
+            if index >= len(container):      # an earlier edit of a pair shrank this list: no-op
+                return Mutator.NOOP
+            old = container[index]
+            container[index] = new
+        return old
+
+    NOOP = object()
+
+    @staticmethod
+    def undo(edit, old):
+        cls, container, index, new, extra = edit
+        if old is Mutator.NOOP:
+            return
+        if index is None:
             container[:] = old
+        else:
+            container[index] = old
+
+    def emit_edits(self, edits):
+        olds = [self.apply(e) for e in edits]
+        extra = []
+        for e in edits:
+            for d in e[4]:
+                if d not in extra: extra.append(d)
+        try:
+            self.emit('+'.join(e[0] for e in edits), self.prog, extra)
+        finally:
+            for e, o in reversed(list(zip(edits, olds))):
+                self.undo(e, o)
 
     MUT_DECL = ['data', ('s', 'MutT'), ['tparams'], ['ctor', ('s', 'MkMutT'), ['ctx']]]
     MUT_TERM = ['ctor', ('s', 'MkMutT'), ['args'], 'none']
@@ -332,6 +363,12 @@ class Mutator:
         # ---- variables
         if k == 'var' and not is_cov_arg:
             self.with_edit('unboundvar', container, index, ['var', ('s', UNB), 'none', 'none'])
+        if k == 'call':
+            self.with_edit('unboundvar', t, 1, ('s', UNB))          # undefined function (T-002)
+        if k == 'ctor':
+            self.with_edit('unboundvar', t, 1, ('s', 'Zzunbound'))  # undefined constructor
+        if k == 'dtor':
+            self.with_edit('unboundvar', t, 2, ('s', UNB))          # undefined destructor (T-023)
         if k == 'goto':
             self.with_edit('unboundcov', t, 1, ('s', UNB))
             for n, chi in scope:
@@ -431,6 +468,9 @@ class Mutator:
             if d[0] == 'def':
                 ctx = d[2]
                 for j in range(1, len(ctx)):
+                    # the same parameter twice (T-018 / T-019)
+                    self.with_list_edit('dupdecl', ctx, ctx[:] + [ctx[j]])
+                for j in range(1, len(ctx)):
                     b = ctx[j]
                     if b[3] != 'i64':
                         ty = b[3]
@@ -441,10 +481,18 @@ class Mutator:
                     self.with_list_edit('tyargs', ty, ty[:] + ['i64'])
                     if len(ty) > 2: self.with_list_edit('tyargs', ty, ty[:-1])
 
-    def run(self):
+    def run(self, doubles=0, seed=0):
         self.emit('orig', self.prog)
         self.walk()
         self.decl_mutations()
+        for e in self.edits:
+            self.emit_edits([e])
+        if doubles:
+            import random
+            rnd = random.Random(seed)
+            for _ in range(doubles):
+                e1, e2 = rnd.sample(self.edits, 2)
+                self.emit_edits([e1, e2])
         # dedupe (keep first) and drop mutants identical to the original
         seen, res = set(), []
         orig = self.out[0][1]
@@ -455,13 +503,14 @@ class Mutator:
 
 def main():
     args = sys.argv[1:]
-    harness, only, limit = HARNESS, None, None
+    harness, only, limit, doubles = HARNESS, None, None, 0
     pos = []
     while args:
         a = args.pop(0)
         if a == '--harness': harness = args.pop(0)
         elif a == '--only': only = args.pop(0)
         elif a == '--limit': limit = int(args.pop(0))
+        elif a == '--doubles': doubles = int(args.pop(0))
         else: pos.append(a)
     corpus, outdir = pos
     os.makedirs(outdir, exist_ok=True)
@@ -474,7 +523,7 @@ def main():
             print('skip (not accepted):', f, file=sys.stderr); continue
         decls0 = parse_sexp(s0[3:])[1:]
         defs1 = parse_sexp(s1[3:])[3][1:]
-        muts = Mutator(decls0, defs1).run()
+        muts = Mutator(decls0, defs1).run(doubles, seed=len(f))
         base = f[:-3]
         count = {}
         for cls, text in muts:
